@@ -89,6 +89,60 @@ def gen_probe(rng, tier):
         st = gen_stack(rng)
         yield ' '.join(st) + ' ;; ' + ' ; '.join(gen_ops(rng, rng.choice([10, 25, 50]), True, st))
 
+def gen_lookup_ops(rng, nops, stack):
+    tis = set([0, 4])
+    for t in stack:
+        if t.startswith('GK'): tis.add(int(t[2:]))
+    tis = sorted(tis)
+    pool_s = [meta_index(ti, r, 0, 0) for ti in tis for r in range(1, 6)]
+    pool_e = [meta_index(ti, r, 1, 0) for ti in tis for r in range(1, 6)]
+    ms = rng.sample(pool_s, min(len(pool_s), rng.choice([3, 5, 8]))); me = rng.sample(pool_e, min(len(pool_e), rng.choice([2, 4, 6])))
+    ops = []; nsp = 0; entered = []; closed = set(); kids = {}
+    def par():
+        live = [k for k in range(nsp) if k not in closed]
+        r = rng.random()
+        if r < 0.45 or not live: return 'c'
+        if r < 0.55: return 'r'
+        return str(rng.choice(live))
+    while len(ops) < nops:
+        r = rng.random(); c = rng.randrange(2)
+        if r < 0.30:
+            p = par(); ops.append('sp %d %d %d %s' % (nsp, rng.choice(ms), c, p))
+            # whoever the parent turns out to be, it must outlive the child: remember every candidate
+            cands = ([int(p)] if p not in 'cr' else []) + (entered[-1:] if p == 'c' else [])
+            for q in cands: kids.setdefault(q, set()).add(nsp)
+            nsp += 1
+        elif r < 0.55: ops.append('ev %d %d %s' % (rng.choice(me), c, par()))
+        elif r < 0.72 and nsp:
+            k = rng.randrange(nsp)
+            if k not in closed and k not in entered: ops.append('en %d' % k); entered.append(k)
+        elif r < 0.84 and entered:
+            k = entered.pop(rng.randrange(len(entered))) if rng.random() < 0.3 else entered.pop(); ops.append('ex %d' % k)
+        elif r < 0.90 and nsp:
+            k = rng.randrange(nsp)
+            if k not in closed: ops.append('rc %d' % k)
+        elif nsp:
+            k = rng.randrange(nsp)
+            if k not in closed and k not in entered and all(ch in closed for ch in kids.get(k, ())): ops.append('cl %d' % k); closed.add(k)
+    return ops
+
+def gen_lookup(rng, tier):
+    n = 1000 if tier == 'quick' else 20000
+    for _ in range(n):
+        while True:
+            st = gen_stack(rng)
+            if any(t[0] == 'F' and t[1:].isdigit() for t in st): break
+        yield ' '.join(st) + ' ;; ' + ' ; '.join(gen_lookup_ops(rng, rng.choice([10, 25, 50]), st))
+
+def nontrivial_lookup(case, out):
+    # some layer was shown a scope that skips a span (a chain of >=2 somewhere, and two layers disagreeing about what they see)
+    toks = [t for t in out.split() if '(' in t]
+    views = set()
+    for t in toks:
+        for part in t.split(':', 1)[1].split('/'):
+            views.add(part.split('(', 1)[1])
+    return any(',' in v for v in views) and any(len(set(p.split('(', 1)[1] for p in t.split(':', 1)[1].split('/'))) >= 2 for t in toks)
+
 def nontrivial(case, out):
     return case.count(' F') + case.startswith('F') >= 1 and ('e:' in out) and any(t in ('e:', 's:-') or t.endswith(':') for t in out.split()) and any(len(t) > 2 for t in out.split())
 
@@ -108,6 +162,7 @@ def _span_index_safe(op):
 _a = Stream('hist', 'h_layers', gen=gen, nontrivial=nontrivial, spec_mode='spec')
 _b = Stream('probe', 'h_layers', gen=gen_probe, nontrivial=nontrivial, spec_mode='spec')
 _c = Stream('chain', 'h_chain', mode='modelchain', gen=gen_chain, nontrivial=nontrivial, spec_mode='spec')
+_l = Stream('lookup', 'h_lookup', mode='modellookup', gen=gen_lookup, nontrivial=nontrivial_lookup, spec_mode='speclookup')
 
 def _split_ops(case):
     return case
@@ -118,7 +173,10 @@ PROPERTY = {
                 "after every complete emission the thread's bitmap is clean (bitmap_clean) and, from a clean bitmap, an event/span is received by exactly the layers whose own filter and every global filter accept it "
                 "(isolation_partial), for every stack of plain / global-filter / per-layer-filtered layers and every filter expression; the negation for histories containing a bare enabled probe is a kernel-decided witness (F3). "
                 "The model is compared with real stacks built at run time (and_then trees over the Registry, filters from the real FilterExt combinators) driven through the Dispatch API with the macro front end's caching, "
-                "and with the bitmap-free specification.",
+                "and with the bitmap-free specification. Lookups: the FilterMap stored with a span has exactly the bits of the filters that rejected it (span_map_spec), so a span is visible to a layer's lookups iff that "
+                "layer's own filter accepted it (visible_iff_accepted); Context::span, lookup_current, span_scope / event_scope, SpanRef::parent and event_span (contextual, explicit, root) return only visible spans and "
+                "a scope is exactly the visible part of the ancestor chain (lookups_hide_rejected, scope_complete). Real recording layers perform all of these lookups inside every callback over span trees with explicit, "
+                "contextual and root parents, and what they are shown is compared with the model and with a specification that decides visibility from the layer's filter alone.",
         'note': "Trusted: Lean kernel; propext/Classical.choice/Quot.sound; stacks are and_then trees of boxed layers (the .with().with() chain differs only in pick_interest flags); Vec/Option layer wrappers and two stacks on two threads "
                 "are not yet in the model; fewer than 64 filters. Known finding F3: an enabled!/log_enabled! probe leaves per-layer bits set for the next always-cached emission.",
         'technique': 'Lean 4 proof (bitmap invariant + case analysis over stack nodes) of a hand-written model + differential run against real layer stacks',
@@ -126,10 +184,11 @@ PROPERTY = {
     'lean_module': 'TracingModel.Props.C07',
     'namespace': 'C07',
     'units': [],
-    'required_theorems': ['C07.bitmap_clean', 'C07.isolation_partial', 'C07.isolation_spans', 'C07.interest_sound', 'C07.pass_and_deliver', 'C07.probe_witness'],
-    'streams': [_a, _b, _c],
+    'required_theorems': ['C07.bitmap_clean', 'C07.isolation_partial', 'C07.isolation_spans', 'C07.interest_sound', 'C07.pass_and_deliver', 'C07.probe_witness',
+                          'C07.span_map_spec', 'C07.visible_iff_accepted', 'C07.lookups_hide_rejected', 'C07.scope_complete'],
+    'streams': [_a, _b, _c, _l],
     'rule': 'one case = a stack of 1-5 layers (plain / global filter leaf / recording layer with a per-layer filter expression of depth <=2 incl. context-dependent closures, and/or/not, Option, reload, Box) and a history of '
-            'events, spans, enter/exit/record/close on created spans over 2-8 callsites (so interest caches are hit) in two contexts; stream probe adds enabled!-style probes; non-trivial = a filtered layer present, something delivered and something withheld',
-    'trusted_base': ['hand-written model Core/Filtering.lean', 'executor h_layers (real Registry + Filtered + FilterExt, synthetic metadata through Dispatch with per-callsite interest caching)'],
+            'events, spans, enter/exit/record/close on created spans over 2-8 callsites (so interest caches are hit) in two contexts; stream probe adds enabled!-style probes; non-trivial = a filtered layer present, something delivered and something withheld. Stream lookup: stacks with at least one filtered layer, span trees built with contextual / explicit / root parents, events with all three parent kinds, enter/exit (also out of order)/record/close; every receiving layer logs event_span, event_scope, span(id).parent(), span_scope, lookup_current; non-trivial = some scope of length >=2 and two layers shown different things',
+    'trusted_base': ['hand-written model Core/Filtering.lean', 'executor h_layers (real Registry + Filtered + FilterExt, synthetic metadata through Dispatch with per-callsite interest caching)', 'hand-written model Core/Lookup.lean', 'executor h_lookup'],
     'assumptions': ['lifecycle ops follow the Span protocol (exit after enter, close once, after the last exit)'],
 }
